@@ -3,6 +3,8 @@ CONSTANT NameChars <- TabChars
 CONSTANT NP = 3
 CONSTANT MaxOps = 2
 CONSTANT Styles = {"only_r", "only_m"}
+CONSTANT Guarded = TRUE
+INVARIANT InvAllRefsLegal
 INVARIANT InvNoDanglingRef
 INVARIANT InvUniqueUnits
 INVARIANT InvSeedsResolve
